@@ -8,6 +8,7 @@ import framework
 import pde
 import sol as S
 import registry as R
+import models
 from exec import Ptr, NULL, ExecError, pc_term
 import c15
 from c12 import H, ext_writes, matched, replay_script
@@ -180,6 +181,34 @@ def body(chk):
                                                 after=['std::string s; masa_get_name<Scalar>(&s); printf("\\nR after %s\\n", s.c_str());',
                                                        'int again=0; for(int k=0;k<3;k++){ try { masa_select_mms<Scalar>("nope"); } catch(int e) { again += (e==1); } } printf("R fails_again %d\\n", again);',
                                                        'masa_get_name<Scalar>(&s); printf("R still %s\\n", s.c_str());'], expect_after=['R after euler_2d', 'R fails_again 3', 'R still euler_2d']))
+            # (b') the same from the EMPTY registry, after a call that leaves state behind without changing the registry: listing the (empty)
+            #      registry first, or (exception build) a caught failed select -- the fatal error must still be REPORTED afterwards
+            flist = S.api_fn(w, 'masa_list_mms', scalar, '')
+            firsts = [('masa_list_mms()', lambda ex: ex.call(flist, []), 'masa_list_mms<Scalar>();')]
+            if exceptions:
+                firsts.append(('a caught failed masa_select_mms', lambda ex: ex.call(fsel, [S.new_string(ex, H)]), 'try { masa_select_mms<Scalar>("nope0"); } catch(int e) {} std::cout.flush(); printf("\\nR marker\\n"); fflush(stdout);'))
+            for fname_, first_, line_ in firsts:
+                bad, why = [], ''
+                for p in ex.explore(w.base, first_, 16):
+                    if p['error'] is not None:
+                        bad.append(pc_term(p['pc']))
+                        why = str(p['error'])
+                        continue
+                    if p['terminal'] is not None and not (exceptions and p['terminal'][0] == 'throw'):
+                        if fname_.startswith('masa_list'):
+                            bad.append(pc_term(p['pc']))
+                            why = 'listing the empty registry terminates: %r' % (p['terminal'],)
+                        continue
+                    st1 = p['st'].clone()
+                    st1.events = [('cout-fail', 'carried over from the first step')] if models.cout_failed(None, st1.events) else []
+                    for q in ex.explore(st1, lambda ex: ex.call(fsel, [S.new_string(ex, H)]), 16):
+                        ok, why_ = fatal_ok(q, st1, exceptions, state_matters=False)
+                        if not ok:
+                            bad.append(pc_term(p['pc']))
+                            why = 'after %s on the empty registry: %s' % (fname_, why_)
+                chk.paths_clean('select-unknown-on-empty-registry-after-%s[%s]<%s>' % (fname_.split('(')[0].replace(' ', '-'), bname, scalar), bad, key='select-unknown:empty:%s' % fname_, family='unknown-handle',
+                                sample=dict(obligation='fatal error still reported after %s' % fname_, why=why),
+                                replay=fatal_replay(chk, scalar, exceptions, [line_, 'masa_select_mms<Scalar>("nope");'], 'select of an unknown handle on the empty registry after %s: %s' % (fname_, why)))
             finit = S.api_fn(w, 'masa_init', scalar, 'std::string, std::string')
             S.install_api_models(w)
             BADNAME = tm.sym('BADNAME', 'S')
@@ -227,7 +256,7 @@ def after_failure_probes(w, ex, p, scalar, exceptions, fn, handles, objs, mkargs
     (2) selecting a registered handle must succeed and select its instance.  Returns '' or what went wrong."""
     st1 = p['st'].clone()
     n0 = len(st1.events)
-    st1.events = []
+    st1.events = [('cout-fail', 'carried over from the first step')] if models.cout_failed(None, st1.events) else []      # (stream state survives the caught failure)
     sel = fsel or fn
     kw = dict(default=directed) if directed is not None else {}
     first = set((c.id, b) for c, b in p['pc'])
@@ -278,8 +307,10 @@ def fatal_replay(chk, scalar, exceptions, lines, why, after=None, expect_after=N
             body = '%s\n %s\n printf("\\nR survived\\n");' % ('\n'.join(pre), bad)
             expect = ['MASA FATAL ERROR']
             want_rc = 1
-        src = '#include <masa.h>\n#include <cstdio>\n#include <string>\nusing namespace MASA;\ntypedef %s Scalar;\nint main(){\n%s\n return 0;}\n' % (cxx, body)
+        src = '#include <masa.h>\n#include <cstdio>\n#include <iostream>\n#include <string>\nusing namespace MASA;\ntypedef %s Scalar;\nint main(){\n%s\n return 0;}\n' % (cxx, body)
         rc, out, err = lb.run(src)
+        if 'R marker' in out:
+            out = out.split('R marker')[-1]          # only what is printed after the preparatory (caught) failure counts
         missing = [e for e in expect if e not in out]
         if missing or rc != want_rc or 'R survived' in out:
             path = chk.save_replay(ob, dict(obligation=ob.name, expected=expect, stdout=out[-2000:], rc=rc, why=why), src)
